@@ -72,19 +72,32 @@ def main():
     if confirm_only:
         return 0
     detected = {}
-    rc, out = sh(["git", "-C", "/repo", "status", "--short"])
+    use_wt = "--worktree" in sys.argv
+    target = "/repo"
+    env = None
+    if use_wt:
+        # evaluate in a scratch worktree instead of /repo itself (for use while a background run needs /repo untouched)
+        target = "/tmp/seedeval-%s-%d" % (sid, os.getpid())
+        rc, out = sh(["git", "-C", "/repo", "worktree", "add", "--detach", target, "HEAD"])
+        if rc != 0:
+            print("cannot create worktree:", out)
+            return 2
+        env = dict(os.environ, VERIF_REPO_OVERRIDE=target)
+    rc, out = sh(["git", "-C", target, "status", "--short"])
     if out.strip():
-        print("/repo is not clean:", out)
+        print(target, "is not clean:", out)
         return 2
-    rc, out = sh(["git", "-C", "/repo", "apply", patch])
+    rc, out = sh(["git", "-C", target, "apply", patch])
     if rc != 0:
-        print("cannot apply to /repo:", out)
+        print("cannot apply to %s:" % target, out)
+        if use_wt:
+            sh(["git", "-C", "/repo", "worktree", "remove", "--force", target])
         return 2
     try:
         for p in props:
             for tier in (["quick", "thorough"] if thorough else ["quick"]):
                 t0 = time.time()
-                rc, out = sh(["./check", p, tier], cwd=VERIF, timeout=3600)
+                rc, out = sh(["./check", p, tier], cwd=VERIF, timeout=3600, env=env)
                 viol = [l for l in out.splitlines() if l.startswith("VIOLATION")]
                 detected["%s/%s" % (p, tier)] = {"exit": rc, "violation_lines": len(viol), "wall_s": round(time.time() - t0, 1)}
                 print("check %s %s -> exit %d (%d VIOLATION lines, %.0fs)" % (p, tier, rc, len(viol), time.time() - t0))
@@ -93,12 +106,17 @@ def main():
                     print("   ", "\n    ".join(tail))
                     break
     finally:
-        sh(["git", "-C", "/repo", "checkout", "--", "."])
-        sh(["git", "-C", "/repo", "clean", "-fdq"])
+        if use_wt:
+            sh(["git", "-C", "/repo", "worktree", "remove", "--force", target])
+            sh(["git", "-C", "/repo", "worktree", "prune"])
+        else:
+            sh(["git", "-C", "/repo", "checkout", "--", "."])
+            sh(["git", "-C", "/repo", "clean", "-fdq"])
     out_dir = os.path.join(VERIF, "seeded", sid)
     os.makedirs(out_dir, exist_ok=True)
-    shutil.copy(patch, os.path.join(out_dir, "patch.diff"))
-    shutil.copy(demo, os.path.join(out_dir, "demo_test.go"))
+    if os.path.abspath(src) != os.path.abspath(out_dir):
+        shutil.copy(patch, os.path.join(out_dir, "patch.diff"))
+        shutil.copy(demo, os.path.join(out_dir, "demo_test.go"))
     prev = {}
     try:
         prev = json.load(open(os.path.join(out_dir, "meta.json")))
